@@ -31,6 +31,26 @@ type C13W struct {
 	// SetFirst lists items whose set precedes their removal marker in the adjustment's lists
 	// (list order must not matter either).
 	SetFirst []string `json:"set_first,omitempty"`
+	// OrigBlk > 0 / OrigRdt != "": the runtime's spec already carries a block I/O weight / an RDT class
+	// (an adjustment with an empty class name clears it, one with a class replaces it, none leaves it)
+	OrigBlk int    `json:"orig_blk,omitempty"`
+	OrigRdt string `json:"orig_rdt,omitempty"`
+}
+
+// c13Spec is the runtime's spec of the case.
+func c13Spec(w *C13W, orig *api.Container) *rspec.Spec {
+	s := specFromContainer(orig)
+	if w.OrigBlk > 0 {
+		if s.Linux.Resources == nil {
+			s.Linux.Resources = &rspec.LinuxResources{}
+		}
+		wt := uint16(w.OrigBlk)
+		s.Linux.Resources.BlockIO = &rspec.LinuxBlockIO{Weight: &wt}
+	}
+	if w.OrigRdt != "" {
+		s.Linux.IntelRdt = &rspec.LinuxIntelRdt{ClosID: w.OrigRdt}
+	}
+	return s
 }
 
 func c13Gen(rng *rand.Rand, conf string, idx int) any {
@@ -43,6 +63,12 @@ func c13Gen(rng *rand.Rand, conf string, idx int) any {
 		if rng.Intn(2) == 0 {
 			w.Orig = append(w.Orig, MOp{Kind: "ann", Key: k, Act: "set", Val: g.val()})
 		}
+	}
+	if rng.Intn(3) == 0 {
+		w.OrigBlk = 100 + rng.Intn(800)
+	}
+	if rng.Intn(3) == 0 {
+		w.OrigRdt = fmt.Sprintf("orig%d", rng.Intn(9))
 	}
 	// the runtime's spec need not list mounts parents-first
 	rng.Shuffle(len(w.Orig), func(i, j int) { w.Orig[i], w.Orig[j] = w.Orig[j], w.Orig[i] })
@@ -227,6 +253,12 @@ func extractSpec(s *rspec.Spec, cdi []string) *CState {
 func c13Model(w *C13W) *CState {
 	// what the original spec carries of the original items
 	st := newCState()
+	if w.OrigBlk > 0 {
+		st.Res["blockio"] = fmt.Sprintf("cls%d", w.OrigBlk)
+	}
+	if w.OrigRdt != "" {
+		st.Res["rdt"] = w.OrigRdt
+	}
 	for _, o := range w.Orig {
 		switch {
 		case o.Kind == "blockio" || o.Kind == "rdt":
@@ -329,9 +361,9 @@ func c13Run(t *testing.T, wl any, sc SchedCfg) *Result {
 			// larger maps: a seeded sample of the permutations
 			return rand.New(rand.NewSource(int64(sc.Seed) + int64(perm)*7919 + int64(n))).Perm(n)
 		})
-		spec0 := specFromContainer(orig)
+		spec0 := c13Spec(w, orig)
 		rem0 := c13Remainder(spec0)
-		side := newC03Side(specFromContainer(orig))
+		side := newC03Side(c13Spec(w, orig))
 		adj := buildAdjustC13(w.Ops, setFirst)
 		if err := side.g.Adjust(adj); err != nil {
 			res.Violate("C13.adjust-error", "Adjust failed: %v", err)
